@@ -1478,16 +1478,16 @@ def rule_r20(repo, run, T):
     name_fields, type_fields = {}, {}
     for mn in ("statements", "wrapp", "wrapl"):
         m = repo.module(mn)
-        for c in ast.walk(m.tree):
-            if isinstance(c, ast.keyword) and c.arg in NAME_KEYS and pyflow.const_str(c.value):
-                for word in pyflow.const_str(c.value).split():
+        name_values = set()
+        for key, val in pyflow.table_fields(m.tree):
+            if key in NAME_KEYS and pyflow.const_str(val):
+                name_values.add(id(val))
+                for word in pyflow.const_str(val).split():
                     for f in re.findall(r"\{(\w+)\}", word):
                         pre = word.split("{")[0]
-                        name_fields.setdefault(f, []).append((m, c.value, c.arg, pre, word))
-            elif isinstance(c, ast.Constant) and isinstance(c.value, str) and "{" in c.value:
-                par = getattr(c, "_parent", None)
-                if isinstance(par, ast.keyword) and par.arg in NAME_KEYS:
-                    continue
+                        name_fields.setdefault(f, []).append((m, val, key, pre, word))
+        for c in ast.walk(m.tree):
+            if isinstance(c, ast.Constant) and isinstance(c.value, str) and "{" in c.value and id(c) not in name_values:
                 for f in re.findall(r"(?:vector<|sizeof\(|_cast<)\{(\w+)\}", c.value):
                     type_fields.setdefault(f, []).append((m, c))
     if len(name_fields) < 2 or not type_fields:
